@@ -63,11 +63,8 @@ Arg(a) == CASE a = "int64" -> B("int64")
             [] a = "sTg" -> St(Tg)
             [] a = "lTf" -> Sl(Tf)
             [] a = "lTg" -> Sl(Tg)
-\* coarse kind of an argument (names the class of a finding)
-ArgKind(a) == CASE a \in {"int64", "uint64"} -> "basic"
-                [] a = "N" -> "named"
-                [] a \in {"Tf", "Tg"} -> "local"
-                [] a \in {"sTf", "sTg", "lTf", "lTg"} -> "oflocal"
+\* coarse kind of an argument (names the class of a finding): does it mention a function-local type?
+ArgKind(a) == IF a \in {"int64", "uint64", "N"} THEN "plain" ELSE "local"
 
 Producers == {"arg", "H", "GL", "GM", "CL", "CM", "Box"}
 Produce(p, a) ==
